@@ -455,6 +455,9 @@ def sample_mismatch_experiment(block: Block, sample: dict) -> dict:
     for key in sample:
         if len(sample[key]) != block.trials_per_sample():
             res['trial_count'] = [key, len(sample[key]), block.trials_per_sample()]
+    # Columns of continuous factors hold sampled values, not levels of the discrete design
+    continuous_names = [f.name for f in block.continuous_factors]
+    sample = {key: sample[key] for key in sample if key not in continuous_names}
     if not res:
         factor_errors = block.sample_mismatch_factors(sample)
         if factor_errors:
